@@ -238,9 +238,10 @@ DoubleSupport::divide(
         // This is NaN...
         return getNaN();
     }
-    else if (theLHS > 0.0L && isPositiveZero(theRHS) == true)
+    else if ((theLHS > 0.0L) == isPositiveZero(theRHS))
     {
-        // This is positive infinity...
+        // The dividend and the zero have the same sign:
+        // this is positive infinity...
         return getPositiveInfinity();
     }
     else
@@ -269,17 +270,13 @@ DoubleSupport::modulus(
     {
         return getNaN();
     }
-    else if (long(theLHS) == theLHS && long(theRHS) == theRHS)
-    {
-        return long(theLHS) % long(theRHS);
-    }
     else
     {
-        double  theDummy;
+        // XPath 1.0 3.5: "the same as the % operator in Java and
+        // ECMAScript", which is the C library's fmod().
+        using std::fmod;
 
-        double  theResult = divide(theLHS, theRHS);
-
-        return std::modf(theResult, &theDummy) * theRHS;
+        return fmod(theLHS, theRHS);
     }
 }
 
